@@ -5,6 +5,7 @@ package main
 import (
 	"go/ast"
 	"go/types"
+	"strings"
 	"unicode/utf8"
 
 	"golang.org/x/tools/go/ssa"
@@ -75,6 +76,17 @@ func pathJoin2(a, b *Term) *Term {
 			Ite(And(Eq(b, empty), validPath(a)), a, App("pathJoin2", StringS, a, b))))
 }
 
+// replaceAllT: strings.ReplaceAll, uninterpreted except for the trivial cases.
+func replaceAllT(s, a, b *Term) *Term {
+	if Eqt(a, b) {
+		return s // replacing a by itself
+	}
+	if s.Op == "str" && a.Op == "str" && b.Op == "str" {
+		return StrLit(strings.ReplaceAll(s.Str, a.Str, b.Str))
+	}
+	return App("replaceAll", StringS, s, a, b)
+}
+
 func pdir(p *Term) *Term  { return App("pdir", StringS, p) }
 func pbase(p *Term) *Term { return App("pbase", StringS, p) }
 
@@ -106,7 +118,7 @@ func specLib(e *Engine, env *Env, name string, n *ast.CallExpr) (tv, bool) {
 	case "pbase":
 		return tv{pbase(argT(0)), str}, true
 	case "replaceAll":
-		return tv{App("replaceAll", StringS, argT(0), argT(1), argT(2)), str}, true
+		return tv{replaceAllT(argT(0), argT(1), argT(2)), str}, true
 	case "pclean":
 		return tv{App("pclean", StringS, argT(0)), str}, true
 	case "substr":
@@ -165,7 +177,7 @@ func (x *Exec) stringIntrinsic(fr *Frame, st *State, name string, args []Value, 
 		return []Value{r}, true
 	case "strings.ReplaceAll":
 		x.trusted("strings.ReplaceAll with one-character arguments: uninterpreted + separator lemmas")
-		return []Value{App("replaceAll", StringS, t(0), t(1), t(2))}, true
+		return []Value{replaceAllT(t(0), t(1), t(2))}, true
 	case "path.Join":
 		x.trusted("path.Join: for valid FS paths a, b the result is pjoin(a, b); three-element form per appendix E; otherwise uninterpreted")
 		sv, ok := args[0].(SliceV)
